@@ -41,7 +41,7 @@
    at full strength with no guard. *)
 From Coq Require Import String Ascii List Arith NArith ZArith Bool Permutation.
 From PV Require Import Lib.Strings Lib.Decimal Model.PdbRead Model.Group Model.PdbSpec
-  Proofs.PdbRead Proofs.Group Proofs.Ingest Proofs.Ingest2 Proofs.Other Proofs.C07Witness.
+  Proofs.PdbRead Proofs.Group Proofs.Ingest Proofs.Ingest2 Proofs.Other Proofs.FileLayer Proofs.C07Witness.
 Import ListNotations.
 Local Open Scope string_scope.
 
@@ -278,6 +278,54 @@ Theorem C07_all_lines_regressions :
    serials_of (ingestG py_float_ok (fun _ => false) wtab false w_het) = [1; 2; 3]%Z).
 Proof. exact (conj all_lines_regressions het_regression). Qed.
 
+(* ==== the FILE layer: io.get_pdb_file opens the file in universal-newline text mode.
+   chunks_of_text t = the readline() chunks of a file whose decoded contents are t:
+   "\r\n" and a lone "\r" end a line exactly like "\n"; chunks_of_bytes removes
+   one leading UTF-8 byte order mark first (encoding="utf-8-sig").  For ANY bodies
+   (free of CR/LF), ANY two assignments of LF / CRLF / CR to the lines (no lone CR
+   directly in front of an LF, which would BE a CRLF) and any unterminated last
+   line, the chunks - hence ingest - are the same.  (A CR-only "classic Mac" file
+   reads like the LF file.) *)
+Theorem C07_line_endings_irrelevant : forall (fok : string -> bool) (tab : deftab) (d : bool)
+  (ls ls' : list (string * FileLayer.eol)) (last : string),
+  map fst ls = map fst ls' ->
+  forallb no_eol (map fst ls) = true -> no_eol last = true ->
+  seq_ok ls last = true -> seq_ok ls' last = true ->
+  ingest fok tab d (chunks_of_text (file_text ls last)) =
+  ingest fok tab d (chunks_of_text (file_text ls' last)).
+Proof. exact line_endings_irrelevant. Qed.
+
+(* the side condition holds whenever the file has no EMPTY line (whitespace-only
+   lines are fine); an empty LF-terminated line after a CR-terminated one merges
+   into one CRLF and only a blank line vanishes (C07_blank_lines_irrelevant) *)
+Theorem C07_line_endings_side_condition : forall (ls : list (string * FileLayer.eol)) (last : string),
+  forallb (fun b => negb (is_empty b) && no_eol b) (map fst ls) = true -> no_eol last = true ->
+  seq_ok ls last = true.
+Proof. exact seq_ok_nonempty. Qed.
+
+Example C07_line_endings_nonvacuous :
+  seq_ok (with_eols [CR; CR; CR; CR]) "END" = true /\
+  seq_ok (with_eols [CR; CRLF; LF; CR]) "END" = true /\
+  seq_ok (with_eols [CR; LF; LF; LF]) "END" = false /\
+  chunks_of_bytes (file_text (with_eols [CR; CR; CR; CR]) "END") =
+    (map (fun b => b ++ nl)%string fl_bodies ++ ["END"])%list /\
+  chunks_of_bytes (bom_bytes ++ file_text (with_eols [CR; CRLF; LF; CR]) "END")%string =
+    (map (fun b => b ++ nl)%string fl_bodies ++ ["END"])%list /\
+  List.length (chunks_of_bytes (file_text (with_eols [CR; LF; LF; LF]) "END")) = 4.
+Proof. exact fl_example. Qed.
+
+(* the byte order mark of a UTF-8 file is not text (d3864ae, was C07-F9): for ANY
+   contents, the file with a leading BOM gives the chunks of the file without it *)
+Theorem C07_bom_irrelevant : forall t : string,
+  chunks_of_bytes (bom_bytes ++ t)%string = chunks_of_text t /\
+  (prefix_of bom_bytes t = false -> chunks_of_bytes t = chunks_of_text t).
+Proof. intros t. split; [apply chunks_bom | apply chunks_no_bom]. Qed.
+
+Theorem C07_bom_regression :
+  serials_of (ingest py_float_ok wtab false (chunks_of_bytes w_bom_text)) = [1; 2]%Z /\
+  serials_of (ingest py_float_ok wtab false (chunks_of_bytes (bom_bytes ++ w_bom_text))) = [1; 2]%Z.
+Proof. exact bom_regression. Qed.
+
 (* ---- every cut position of a coordinate line (C07_trailing_columns covers k >= 54) ---- *)
 
 (* cut after column 27..46: always ValueError (the z field is empty) *)
@@ -348,3 +396,8 @@ Print Assumptions C07_cut_before_z.
 Print Assumptions C07_cut_inside_z.
 Print Assumptions C07_cut_hetatm_short.
 Print Assumptions C07_nonvacuous_all_lines.
+Print Assumptions C07_line_endings_irrelevant.
+Print Assumptions C07_line_endings_nonvacuous.
+Print Assumptions C07_bom_irrelevant.
+Print Assumptions C07_bom_regression.
+Print Assumptions C07_line_endings_side_condition.
